@@ -99,6 +99,7 @@ static int stepMode() {
         }
         std::string outs = out.str();
         std::ostringstream frem;
+#ifndef NO_IO_INTROSPECTION
         for (auto &f : files) {
           size_t left = f.second.size();
           bool openedForOutput = std::ifstream("simout" + std::to_string(f.first)).good();
@@ -109,6 +110,7 @@ static int stepMode() {
           }
           frem << " f" << f.first << "=" << left;
         }
+#endif
         p->~Processor();   // flush/close stream files
         p = nullptr;
         // file outputs / remaining file inputs
